@@ -479,6 +479,10 @@ func genDiffTexts(seed int64, n int) []*diffCase {
 	}
 	// whitespace-only / invalid UTF-8 only / trailing newline only differences
 	special := [][2]string{{"a\r\nb", "a\nb"}, {"a\r\n", "a\n"}, {"x\r", "x"}, {"l1\r\nl2\r\nl3", "l1\nl2\nl3"}, {"l1\nl2\r\nl3", "l1\nl2\nl3"}, {"a", "a "}, {"a\n", "a"}, {"a\xffb", "a\xfeb"}, {"l1\na\xffb\nl3", "l1\na\xfeb\nl3"}, {"", "\n"}, {"", "x"}, {"x", ""},
+		// different lines with equal 32-bit FNV-1a digests: a matcher that indexes lines by a digest
+		// must still compare the lines themselves
+		{"liquid", "costarring"}, {"altarage", "zinke"}, {"declinate", "macallums"},
+		{"head\nliquid\ntail", "head\ncostarring\ntail"}, {"a\nb\naltarage\nc\nd\ne\nf\ng\nh\ni\nj\nk", "a\nb\nzinke\nc\nd\ne\nf\ng\nh\ni\nj\nk"},
 		{"A", "a"}, {"é", "é"}, {"x\n\n\ny", "x\n\ny"}, {strings.Repeat("q", 100000) + "0", strings.Repeat("q", 100000) + "1"}}
 	for _, sp := range special {
 		out = append(out, &diffCase{A: sp[0], B: sp[1]})
